@@ -4,7 +4,7 @@ from vlib import common, coq, gobuild, gw, s3c, e2e, hooks
 from vlib.common import coq_list
 from props.c05 import body_of, write_headers, classify
 
-THEOREMS = ["C11_crash_leaves_old_or_new", "C11_acknowledged_writes_survive", "C11_recovery_is_possible", "C11_versioned_delete_keeps_version", "C11_versioned_delete_frame", "C11_marker_first_order_refuted"]
+THEOREMS = ["C11_crash_leaves_old_or_new", "C11_acknowledged_writes_survive", "C11_recovery_is_possible", "C11_versioned_delete_keeps_version", "C11_versioned_delete_frame", "C11_marker_first_order_refuted", "C11_directory_object_first_upload_atomic", "C11_directory_object_overwrite_refuted"]
 TARGETS = ["Properties/C11.vo", "Check/CrashCheck.vo"]
 CONFIGS = [("otmpfile+xattr", {"iam": False}), ("named-temp+xattr", {"iam": False, "otmp": False}), ("otmpfile+xattr+versioned", {"iam": False, "versioning": True}),
            ("otmpfile+sidecar", {"iam": False, "meta": "sidecar"}), ("named-temp+sidecar", {"iam": False, "otmp": False, "meta": "sidecar"}),
@@ -33,6 +33,7 @@ def run(chk):
     if built:
         coq.check_assumptions(chk, "Properties.C11", THEOREMS)
     mcases = []
+    dcases = []          # directory-object uploads: (existing, attribute writes completed, class 0 missing / 1 old / 2 new / 9 neither)
     vcases = []          # DeleteObject in a versioned bucket: (steps completed, key still reads the old data, the old version still shown)
     VSTEP_OF = {"posix.objversion.stored": 1, "posix.deleteobject.marker.between": 2}
     nb = [0]
@@ -234,6 +235,7 @@ def run(chk):
                         state = "missing" if keys == [] else "broken" if keys != [key] else "old" if md == old_md else "new" if md == new_md else "broken"
                         row = {"config": label, "operation": opname, "killed_after_attribute_write": n, "request_answer": r.status, "listed": keys, "user_metadata_after_restart": md, "state": state}
                         chk.traces += 1; chk.count("%s:%s:%s" % (label, opname, state))
+                        dcases.append(((existing, n, {"missing": 0, "old": 1, "new": 2}.get(state, 9)), row))
                         allowed = {"old", "new"} if existing else {"missing", "new"}
                         if state not in allowed:
                             chk.fail("c11:state:%s" % opname, "[%s] PutObject of the directory object %s killed after its attribute write no. %d: after the restart the key is listed as %r with user metadata %r; "
@@ -253,6 +255,8 @@ def run(chk):
         text += "Definition MS := Eval vm_compute in bad case_ok cases.\nPrint MS.\n"
         text += "Definition vcases : list (nat * bool * bool) := " + coq_list(["(%d, %s, %s)" % (k, "true" if a else "false", "true" if b else "false") for (k, a, b), _ in vcases]) + ".\n"
         text += "Definition VS := Eval vm_compute in bad vcase_ok vcases.\nPrint VS.\n"
+        text += "Definition dcases : list (bool * nat * nat) := " + coq_list(["(%s, %d, %d)" % ("true" if ex else "false", n_, cl) for (ex, n_, cl), _ in dcases]) + ".\n"
+        text += "Definition DS := Eval vm_compute in bad dcase_ok dcases.\nPrint DS.\n"
         rc, out = coq.run_cases("C11_cases", text)
         ms = coq.printed_list(out, "MS")
         if rc != 0 or ms is None:
@@ -262,6 +266,9 @@ def run(chk):
             vs = coq.printed_list(out, "VS")
             chk.tie("T4 kill points of a versioned DeleteObject: what the key reads and whether the hidden version is still shown = Model.CrashVersions (%d kills)" % len(vcases),
                     vs is not None and not vs and len(vcases) >= 1, [vcases[int(i)][1] for i in (vs or [])[:5]] or "no kill reached")
+            ds = coq.printed_list(out, "DS")
+            chk.tie("T4 kill points of directory-object uploads: nothing listed / old / new / neither after the n-th attribute write = Model.CrashDirObj (%d kills)" % len(dcases),
+                    ds is not None and not ds and len(dcases) >= 4, [dcases[int(i)][1] for i in (ds or [])[:5]] or "no kill reached")
 
 
 def replay(chk, data):
